@@ -163,8 +163,26 @@ def make_call(rng, entry):
         call['omit_defaults'] = True
     if rng.random() < 0.06:
         call['out_attrs_as'] = 'tuple'
+    if lj == 'ljoin' and rng.random() < 0.06:
+        # output labels that pandas / the library use themselves for other purposes: 'index' (what
+        # reset_index() calls its column) and '_sim_score' (via prefix '_' + a column named 'sim_score')
+        which = rng.choice(['index', 'sim_score'])
+        for spec, side in ((L, 'l'), (R, 'r')):
+            if which not in spec['cols']:
+                spec['cols'] = spec['cols'] + [which]
+                spec['data'][which] = ['%s%s%d' % (side, which[0], i) for i in range(T.spec_len(spec))]
+                spec['dtypes'][which] = 'object'
+        side = rng.choice(['l', 'r'])
+        call[side + '_out_attrs'] = [which] + [a for a in (call[side + '_out_attrs'] or []) if a != which][:2]
+        call[side + '_out_prefix'] = '' if which == 'index' else '_'
+        call[('r' if side == 'l' else 'l') + '_out_prefix'] = 'o_'
+        call['internal_label'] = which
     r = rng.random()
-    if lj != 'ljoin':
+    if lj != 'ljoin' or call.get('internal_label'):
+        r = 2.0 if call.get('internal_label') else r
+    if call.get('internal_label'):
+        pass
+    elif lj != 'ljoin':
         # an empty prefix would ask for an output column named exactly like the library's own
         # '_id' / '_sim_score': a name collision the caller requested, not a result to judge
         r = 1.0 if r < 0.35 and rng.random() < 0.5 else r + 1.0
@@ -174,7 +192,7 @@ def make_call(rng, entry):
         call['l_out_prefix'], call['r_out_prefix'] = rng.choice([('left.', 'right.'), ('A_', 'B_'), ('', 'r_'), ('x', 'xx'), ('l_', 'l_r_'), ('l%%', 'r%s_'), ('50%_', '{}_'), ('%(l)s', '{0}')])
     elif r < 0.35:
         call['l_out_prefix'] = call['r_out_prefix'] = rng.choice(['', 't_'])   # names are disjoint
-    if rng.random() < 0.15 and lj == 'ljoin':
+    if rng.random() < 0.15 and lj == 'ljoin' and not call.get('internal_label'):
         # both tables use the SAME column names for their attributes; the left key's name is an
         # ordinary attribute of the right table and vice versa; one list object is passed for both
         # l_out_attrs and r_out_attrs (as user code with a shared constant does)
